@@ -219,3 +219,69 @@ Lemma nonvacuous :
   exists ps ps', validate ps = true /\ set [] ps P_MaxTxFee (2000000, ""%string) = Some ps'
                  /\ get ps' P_MaxTxFee = Some (2000000, ""%string).
 Proof. exists example_props. eexists. vm_compute. repeat split; reflexivity. Qed.
+
+(* ======================================================================== the spec checker accepts every run of the model *)
+Lemma odec_eqb_refl d : odec_eqb d d = true.
+Proof. destruct d; cbn; [apply Z.eqb_refl | reflexivity]. Qed.
+Lemma fval_eqb_refl f : fval_eqb f f = true.
+Proof. destruct f; cbn; [apply Z.eqb_refl | apply Bool.eqb_reflx | apply odec_eqb_refl | apply String.eqb_refl]. Qed.
+Lemma list_eqb_refl l : list_eqb fval_eqb l l = true.
+Proof. induction l as [|x l IH]; cbn; [reflexivity | rewrite fval_eqb_refl, IH; reflexivity]. Qed.
+Lemma props_eqb_refl ps : props_eqb ps ps = true.
+Proof. apply list_eqb_refl. Qed.
+
+Lemma spec_ix_is_read_ix : forall p i, read_ix p = Some i -> spec_ix p = Some i.
+Proof. destruct p; cbn; intros i H; inversion H; reflexivity. Qed.
+
+Lemma spec_requested_is_requested : forall p v, settable p = true -> spec_requested p v = requested p v.
+Proof.
+  intros p v Hs. destruct (settable_read_written p Hs) as [i [Hr _]].
+  unfold spec_requested, requested. rewrite (spec_ix_is_read_ix p i Hr), Hr. reflexivity.
+Qed.
+
+Lemma others_go_intro : forall i (l m : list fval) n,
+  List.length l = List.length m ->
+  (forall j, Some (n + j)%nat <> i -> nth_error l j = nth_error m j) ->
+  others_go i n l m = true.
+Proof.
+  intros i l. induction l as [|x l IH]; intros m n Hlen H; destruct m as [|y m]; cbn in *; try discriminate; [reflexivity|].
+  apply andb_true_intro; split.
+  - destruct i as [k|].
+    + destruct (Nat.eqb k n) eqn:E; [reflexivity|]. cbn.
+      assert (Some (n + 0)%nat <> Some k) as Hne.
+      { intro A. inversion A. subst. rewrite Nat.add_0_r, Nat.eqb_refl in E. discriminate. }
+      specialize (H O Hne). cbn in H. inversion H. apply fval_eqb_refl.
+    + cbn. assert (Some (n + 0)%nat <> None) as Hne by discriminate.
+      specialize (H O Hne). cbn in H. inversion H. apply fval_eqb_refl.
+  - apply IH; [congruence|]. intros j Hj. apply (H (S j)). rewrite <- plus_n_Sm. exact Hj.
+Qed.
+
+Lemma fields_length : forall ps qs, List.length (fields ps) = List.length (fields qs).
+Proof. intros; reflexivity. Qed.
+
+(* A successful model write passes every clause of the spec checker; so does a rejected one. *)
+Theorem chk_sound_set : forall recs ps code v,
+  let r := set_code recs ps code v in
+  set_clauses ps code v (match r with Some _ => true | None => false end)
+              (match r with Some a => a | None => ps end) [] = [].
+Proof.
+  intros recs ps code v. cbv zeta. unfold set_code.
+  destruct (pid_of_code code) as [p|] eqn:Hp.
+  2:{ unfold set_clauses. rewrite props_eqb_refl. reflexivity. }
+  destruct (set recs ps p v) as [ps'|] eqn:Hs.
+  2:{ unfold set_clauses. rewrite props_eqb_refl. reflexivity. }
+  unfold set_clauses. rewrite Hp.
+  rewrite (validate_sound ps' (set_preserves_valid _ _ _ _ _ Hs)).
+  assert (settable p = true) as Hst.
+  { destruct (settable p) eqn:E; [reflexivity|]. unfold set in Hs. rewrite (unsettable_rejected recs ps p v E) in Hs. discriminate. }
+  destruct (settable_read_written p Hst) as [i [Hr Hw]].
+  rewrite (spec_requested_is_requested p v Hst), (spec_ix_is_read_ix p i Hr).
+  pose proof (set_get recs ps p v ps' i Hs Hr) as G.
+  destruct (nth_error (fields ps') i) as [g|] eqn:Eg; cbn [option_map] in G; [|discriminate].
+  injection G as G'; try rewrite <- G'. rewrite fval_eqb_refl.
+  assert (others_unchanged (Some i) ps ps' = true) as Ho.
+  { unfold others_unchanged. apply others_go_intro; [apply fields_length|].
+    intros j Hj. symmetry. apply (set_frame_fields recs ps p v ps' Hs). rewrite Hw. cbn.
+    intros [A|[]]. apply Hj. cbn. congruence. }
+  rewrite Ho. reflexivity.
+Qed.
